@@ -1,16 +1,408 @@
 package main
 
 import (
+	"bytes"
+	"fmt"
 	"go/ast"
+	"go/format"
+	"go/token"
+	"go/types"
+	"path/filepath"
+	"sort"
+	"strconv"
+	"strings"
 
+	"golang.org/x/tools/go/ast/astutil"
 	"golang.org/x/tools/go/packages"
 )
 
-type schedImpl struct{}
+const vsyncPath = modPath + "/verifshim/vsync"
 
-func analyse(p *packages.Package) *schedImpl                        { return &schedImpl{} }
-func (s *schedImpl) instrument(p *packages.Package, f *ast.File) bool { return false }
-func (s *schedImpl) resetSource(p *packages.Package) string {
-	return "package " + p.Name + "\n\n// VerifResetGlobals restores the package-level state.\nfunc VerifResetGlobals() {}\n"
+type schedImpl struct {
+	guarded   map[*types.Named]string // struct type with a mutex field -> name of the mutex field
+	mutable   map[*types.Var]bool     // package-level variables written after initialisation
+	immutable []string
+	syncVars  []*types.Var
+	resetFns  []string
+	accesses  int
+	syncFiles int
 }
-func (s *schedImpl) summary() interface{} { return nil }
+
+func isSyncType(t types.Type, names ...string) bool {
+	n, ok := t.(*types.Named)
+	if !ok || n.Obj().Pkg() == nil || n.Obj().Pkg().Path() != "sync" {
+		return false
+	}
+	for _, s := range names {
+		if n.Obj().Name() == s {
+			return true
+		}
+	}
+	return len(names) == 0
+}
+
+func analyse(p *packages.Package) *schedImpl {
+	s := &schedImpl{guarded: map[*types.Named]string{}, mutable: map[*types.Var]bool{}}
+	scope := p.Types.Scope()
+	for _, name := range scope.Names() {
+		obj := scope.Lookup(name)
+		switch o := obj.(type) {
+		case *types.TypeName:
+			named, ok := o.Type().(*types.Named)
+			if !ok {
+				continue
+			}
+			st, ok := named.Underlying().(*types.Struct)
+			if !ok {
+				continue
+			}
+			for i := 0; i < st.NumFields(); i++ {
+				if isSyncType(st.Field(i).Type(), "Mutex", "RWMutex") {
+					s.guarded[named] = st.Field(i).Name()
+				}
+			}
+		case *types.Var:
+			if name == "_" {
+				continue
+			}
+			if isSyncType(o.Type()) {
+				s.syncVars = append(s.syncVars, o)
+			}
+		}
+	}
+	// which package-level variables are written after initialisation?
+	rootVar := func(e ast.Expr) *types.Var {
+		for {
+			switch x := e.(type) {
+			case *ast.Ident:
+				if v, ok := p.TypesInfo.Uses[x].(*types.Var); ok && v.Parent() == scope {
+					return v
+				}
+				return nil
+			case *ast.IndexExpr:
+				e = x.X
+			case *ast.SelectorExpr:
+				if id, ok := x.X.(*ast.Ident); ok {
+					if _, isPkg := p.TypesInfo.Uses[id].(*types.PkgName); isPkg {
+						return nil
+					}
+				}
+				e = x.X
+			case *ast.StarExpr:
+				e = x.X
+			case *ast.ParenExpr:
+				e = x.X
+			default:
+				return nil
+			}
+		}
+	}
+	for _, f := range p.Syntax {
+		ast.Inspect(f, func(n ast.Node) bool {
+			switch x := n.(type) {
+			case *ast.AssignStmt:
+				for _, l := range x.Lhs {
+					if v := rootVar(l); v != nil && !isSyncType(v.Type()) {
+						s.mutable[v] = true
+					}
+				}
+			case *ast.IncDecStmt:
+				if v := rootVar(x.X); v != nil {
+					s.mutable[v] = true
+				}
+			case *ast.UnaryExpr:
+				if x.Op == token.AND {
+					if v := rootVar(x.X); v != nil && !isSyncType(v.Type()) {
+						// address taken: treated as possibly written, unless it is only `&T{}` style literal
+						if _, lit := x.X.(*ast.CompositeLit); !lit {
+							s.mutable[v] = true
+						}
+					}
+				}
+			case *ast.CallExpr:
+				if id, ok := x.Fun.(*ast.Ident); ok && id.Name == "delete" && len(x.Args) > 0 {
+					if v := rootVar(x.Args[0]); v != nil {
+						s.mutable[v] = true
+					}
+				}
+			}
+			return true
+		})
+	}
+	for _, name := range scope.Names() {
+		if v, ok := scope.Lookup(name).(*types.Var); ok && name != "_" && !s.mutable[v] && !isSyncType(v.Type()) {
+			s.immutable = append(s.immutable, name)
+		}
+	}
+	return s
+}
+
+// guardedSel reports whether sel is a selection of a guarded (non-mutex) field; returns the
+// receiver expression.
+func (s *schedImpl) guardedSel(p *packages.Package, sel *ast.SelectorExpr) (ast.Expr, bool) {
+	selection := p.TypesInfo.Selections[sel]
+	if selection == nil || selection.Kind() != types.FieldVal {
+		return nil, false
+	}
+	t := selection.Recv()
+	if ptr, ok := t.(*types.Pointer); ok {
+		t = ptr.Elem()
+	}
+	named, ok := t.(*types.Named)
+	if !ok {
+		return nil, false
+	}
+	mf, ok := s.guarded[named]
+	if !ok || sel.Sel.Name == mf {
+		return nil, false
+	}
+	if !pure(sel.X) {
+		return nil, false
+	}
+	return sel.X, true
+}
+
+type hit struct {
+	key   string
+	expr  string // source of the identity expression
+	write bool
+}
+
+// stmtHits collects the guarded objects / mutable globals a simple statement (or the header of a
+// compound statement) touches.
+func (s *schedImpl) stmtHits(p *packages.Package, nodes []ast.Node, lhs []ast.Expr) []hit {
+	found := map[string]*hit{}
+	var order []string
+	lhsRoots := map[ast.Node]bool{}
+	for _, l := range lhs {
+		ast.Inspect(l, func(n ast.Node) bool {
+			if n != nil {
+				lhsRoots[n] = true
+			}
+			return true
+		})
+	}
+	scope := p.Types.Scope()
+	add := func(key, expr string, w bool) {
+		h := found[key]
+		if h == nil {
+			h = &hit{key: key, expr: expr}
+			found[key] = h
+			order = append(order, key)
+		}
+		if w {
+			h.write = true
+		}
+	}
+	for _, root := range nodes {
+		if root == nil {
+			continue
+		}
+		ast.Inspect(root, func(n ast.Node) bool {
+			switch x := n.(type) {
+			case *ast.FuncLit:
+				return false // the closure's body is instrumented on its own
+			case *ast.SelectorExpr:
+				if recv, ok := s.guardedSel(p, x); ok {
+					src := exprString(p.Fset, recv)
+					id := "vsync.ID(" + src + ")"
+					if t := p.TypesInfo.TypeOf(recv); t != nil {
+						if _, isPtr := t.(*types.Pointer); !isPtr {
+							id = "vsync.ID(&" + src + ")"
+						}
+					}
+					add("obj:"+src, id, lhsRoots[x])
+				}
+			case *ast.Ident:
+				if v, ok := p.TypesInfo.Uses[x].(*types.Var); ok && v.Parent() == scope && s.mutable[v] {
+					add("glob:"+v.Name(), fmt.Sprintf("vsync.GID(%q)", p.Name+"."+v.Name()), lhsRoots[x])
+				}
+			case *ast.CallExpr:
+				if id, ok := x.Fun.(*ast.Ident); ok && (id.Name == "delete" || id.Name == "append") && len(x.Args) > 0 {
+					if id.Name == "delete" {
+						ast.Inspect(x.Args[0], func(m ast.Node) bool {
+							if m != nil {
+								lhsRoots[m] = true
+							}
+							return true
+						})
+					}
+				}
+			}
+			return true
+		})
+	}
+	var out []hit
+	for _, k := range order {
+		out = append(out, *found[k])
+	}
+	return out
+}
+
+func (s *schedImpl) accessStmts(p *packages.Package, hits []hit, pos token.Pos) []ast.Stmt {
+	var out []ast.Stmt
+	position := p.Fset.Position(pos)
+	site := fmt.Sprintf("%s:%d", filepath.Base(position.Filename), position.Line)
+	for _, h := range hits {
+		src := fmt.Sprintf("vsync.Access(%s, %v, %q)", h.expr, h.write, site)
+		e, err := parseExpr(src)
+		if err != nil {
+			fail("cannot build access call %s: %v", src, err)
+		}
+		out = append(out, &ast.ExprStmt{X: e})
+		s.accesses++
+	}
+	return out
+}
+
+func parseExpr(src string) (ast.Expr, error) {
+	return parserParseExpr(src)
+}
+
+// instrument rewrites one file; returns whether it changed.
+func (s *schedImpl) instrument(p *packages.Package, f *ast.File) bool {
+	changed := false
+	// 1. import "sync" -> the shim under the same name
+	for _, imp := range f.Imports {
+		if imp.Path.Value == `"sync"` {
+			imp.Path.Value = strconv.Quote(vsyncPath)
+			imp.Name = ast.NewIdent("sync")
+			changed = true
+			s.syncFiles++
+		}
+	}
+	// 2. accesses: walk every block and case clause
+	needImport := false
+	var doList func(list []ast.Stmt) []ast.Stmt
+	doList = func(list []ast.Stmt) []ast.Stmt {
+		var out []ast.Stmt
+		for _, st := range list {
+			var hits []hit
+			switch x := st.(type) {
+			case *ast.AssignStmt:
+				nodes := []ast.Node{}
+				for _, e := range x.Lhs {
+					nodes = append(nodes, e)
+				}
+				for _, e := range x.Rhs {
+					nodes = append(nodes, e)
+				}
+				var lhs []ast.Expr
+				if x.Tok != token.DEFINE {
+					lhs = x.Lhs
+				}
+				hits = s.stmtHits(p, nodes, lhs)
+			case *ast.IncDecStmt:
+				hits = s.stmtHits(p, []ast.Node{x.X}, []ast.Expr{x.X})
+			case *ast.ExprStmt:
+				hits = s.stmtHits(p, []ast.Node{x.X}, nil)
+			case *ast.ReturnStmt:
+				var nodes []ast.Node
+				for _, e := range x.Results {
+					nodes = append(nodes, e)
+				}
+				hits = s.stmtHits(p, nodes, nil)
+			case *ast.DeclStmt:
+				hits = s.stmtHits(p, []ast.Node{x.Decl}, nil)
+			case *ast.IfStmt:
+				hits = s.stmtHits(p, []ast.Node{x.Init, x.Cond}, nil)
+			case *ast.ForStmt:
+				hits = s.stmtHits(p, []ast.Node{x.Init, x.Cond, x.Post}, nil)
+			case *ast.RangeStmt:
+				hits = s.stmtHits(p, []ast.Node{x.X}, nil)
+			case *ast.SwitchStmt:
+				hits = s.stmtHits(p, []ast.Node{x.Init, x.Tag}, nil)
+			case *ast.DeferStmt, *ast.GoStmt:
+				// not instrumented (the deferred unlocks are the mutex's own scheduling points)
+			}
+			if len(hits) > 0 {
+				out = append(out, s.accessStmts(p, hits, st.Pos())...)
+				needImport = true
+				changed = true
+			}
+			out = append(out, st)
+		}
+		return out
+	}
+	ast.Inspect(f, func(n ast.Node) bool {
+		switch x := n.(type) {
+		case *ast.BlockStmt:
+			x.List = doList(x.List)
+		case *ast.CaseClause:
+			x.Body = doList(x.Body)
+		case *ast.CommClause:
+			x.Body = doList(x.Body)
+		}
+		return true
+	})
+	// loops whose body was instrumented: a `for cond` re-evaluates cond each round; the access in
+	// front of the loop plus the accesses inside the body are what the explorer sees.
+	if needImport {
+		astutil.AddNamedImport(p.Fset, f, "vsync", vsyncPath)
+	}
+	// 3. reset functions for mutable globals with initialisers, emitted into the declaring file
+	for _, d := range f.Decls {
+		gd, ok := d.(*ast.GenDecl)
+		if !ok || gd.Tok != token.VAR {
+			continue
+		}
+		for _, spec := range gd.Specs {
+			vs := spec.(*ast.ValueSpec)
+			for i, name := range vs.Names {
+				v, ok := p.TypesInfo.Defs[name].(*types.Var)
+				if !ok || name.Name == "_" {
+					continue
+				}
+				if !s.mutable[v] && !isSyncType(v.Type()) {
+					continue
+				}
+				fn := "verifReset_" + name.Name
+				var body string
+				if i < len(vs.Values) && len(vs.Values) == len(vs.Names) {
+					body = name.Name + " = " + exprString(p.Fset, vs.Values[i])
+				} else {
+					body = "vsync.Zero(&" + name.Name + ")"
+					astutil.AddNamedImport(p.Fset, f, "vsync", vsyncPath)
+				}
+				decl, err := parserParseFuncDecl("func " + fn + "() { " + body + " }")
+				if err != nil {
+					fail("reset function for %s: %v", name.Name, err)
+				}
+				f.Decls = append(f.Decls, decl)
+				s.resetFns = append(s.resetFns, fn)
+				changed = true
+			}
+		}
+	}
+	return changed
+}
+
+func (s *schedImpl) resetSource(p *packages.Package) string {
+	var b bytes.Buffer
+	fmt.Fprintf(&b, "package %s\n\n// VerifResetGlobals restores every mutable package-level variable (generated).\nfunc VerifResetGlobals() {\n", p.Name)
+	sort.Strings(s.resetFns)
+	for _, fn := range s.resetFns {
+		fmt.Fprintf(&b, "\t%s()\n", fn)
+	}
+	b.WriteString("}\n")
+	src, err := format.Source(b.Bytes())
+	if err != nil {
+		fail("reset source: %v", err)
+	}
+	return string(src)
+}
+
+func (s *schedImpl) summary() interface{} {
+	var g []string
+	for n, f := range s.guarded {
+		g = append(g, n.Obj().Name()+"."+f)
+	}
+	sort.Strings(g)
+	var m []string
+	for v := range s.mutable {
+		m = append(m, v.Name())
+	}
+	sort.Strings(m)
+	sort.Strings(s.immutable)
+	return map[string]interface{}{"mutex_bearing_structs": g, "mutable_globals": m, "immutable_globals": strings.Join(s.immutable, " "), "access_calls_inserted": s.accesses, "files_with_sync_rewritten": s.syncFiles, "reset_functions": s.resetFns}
+}
